@@ -164,3 +164,18 @@ package lunarcontext
 //@   requires pq != nil && len(*pq) >= 1
 //@   modifies cell(pq)
 //@   ensures[last] result == box(old(*pq)[old(len(*pq)) - 1]) && len(*pq) == old(len(*pq)) - 1 && forall(j, 0, len(*pq), (*pq)[j] == old(*pq)[j])
+
+// container/heap (trusted): Push hands the item to the queue's Push method and restores the heap order
+//@ ghost var gPushedItem *Item
+//@ extern heap.Push
+//@   params h, x
+//@   modifies gPushedItem, allof(memoryQueue.queue), now
+//@   ensures typeis(x, *Item) ==> gPushedItem == x.(*Item)
+
+// the in-memory queue orders equal scores by the time of the Enqueue call
+//@ func (*memoryQueue).Enqueue
+//@   prop C06
+//@   mode seq
+//@   allocates Item
+//@   modifies gPushedItem, allof(memoryQueue.queue), now
+//@   ensures[stamped-at-enqueue] result == nil && gPushedItem != nil && gPushedItem.value == item && gPushedItem.score == priority && gPushedItem.timestamp >= old(now()) && gPushedItem.timestamp <= now()
